@@ -771,6 +771,16 @@ GOTO_VLA_MARK = '/* jump into the scope of a VLA */'
 HAND += [GOTO_VLA_MARK + ' int f(int n){ goto L; { int a[n]; L: return sizeof a; } }\n',
          GOTO_VLA_MARK + ' int f(int n){ switch (n) { int a[n]; case 1: return sizeof a; } return 0; }\n']
 
+# operand classes of pointer arithmetic with narrow integer operands (every one is widened to l first), struct parameters without
+# a name (their aggregate type must be known to the signature), by-value structs with multi-dimensional array members
+HAND += ['char *f(char *p, int i, short s, unsigned char c, _Bool b) { return p - i - s - c - b; }\nunsigned char *g(unsigned char *p, int i) { p -= i; return p - (i + 1); }\n'
+         'long h(char *p, char *q, int i) { return (p - i) - (q + i) + (&p[-i] - q); }\nchar *k(char *p, unsigned u, long l) { return p - u + l - 1; }\n',
+         'int *f(int *p, short i, signed char c) { return p - i - c + i; }\nvoid *g(char **pp, int i) { return *(pp - i) - i; }\n',
+         'struct opts { long a, b, c; };\nint on_idle(struct opts) { return 1; }\nunion u { long l; double d; char c[20]; };\nint on_u(union u, int x) { return x; }\n'
+         'int run(void) { struct opts o = { 1, 2, 3 }; union u v = { 4 }; return on_idle(o) + on_u(v, 2); }\n',
+         'struct cell { int v; char t; };\nstruct grid { struct cell c[2][3]; short n; };\nstruct mat { double m[3][3]; int k[2][2][2]; };\n'
+         'struct grid mk(struct grid g, struct mat m) { g.n += m.k[1][1][1]; return g; }\nint use(void) { struct grid g = { 0 }; struct mat m = { 0 }; return mk(g, m).n; }\n']
+
 # main gets an implicit `return 0` only when it returns int: other return types must not get a `ret 0`
 HAND += ['void main(void) { }\n', 'void main(int c, char **v) { while (c) { break; } }\n', 'long main(void) { long x = 1; x++; }\n',
          'double main(void) { for (;;) { break; } }\n', 'struct s { long a, b, c; } main(void) { }\n', 'int main(void) { }\nvoid f(void) { }\n',
